@@ -401,20 +401,19 @@ def isWsChar (c : Char) : Bool := Refs.isWs c.toNat
 /-- `str::trim` -/
 def trimStr (s : List Char) : List Char := ((s.dropWhile isWsChar).reverse.dropWhile isWsChar).reverse
 
-/-- the label loop over `str.char_indices()` (entered behind the `[`, at byte `pos`):
+/-- the label loop over `str.char_indices()` (entered behind the `[`, at byte `pos`); `esc` = the
+    previous character was a backslash (`Some((_, '\\')) => { if let Some((_, '\n')) = chars.next() … }`
+    consumes the next character whatever it is).
     `none` = `return false`; `some (label_end, lines, rest of chars)` -/
-def labelScan : List Char → Nat → Nat → Option (Nat × Nat × List Char)
+def labelScan (esc : Bool) : List Char → Nat → Nat → Option (Nat × Nat × List Char)
   | [], _, _ => none
   | c :: r, pos, lines =>
-    if c = '[' then none
+    if esc then labelScan false r (pos + Link.clen c) (if c = '\n' then lines + 1 else lines)
+    else if c = '[' then none
     else if c = ']' then some (pos, lines, r)
-    else if c = '\n' then labelScan r (pos + 1) (lines + 1)
-    else if c = '\\' then
-      match r with
-      | [] => none
-      | d :: r' => labelScan r' (pos + 1 + Link.clen d) (if d = '\n' then lines + 1 else lines)
-    else labelScan r (pos + Link.clen c) lines
-termination_by l => l.length
+    else if c = '\n' then labelScan false r (pos + 1) (lines + 1)
+    else if c = '\\' then labelScan true r (pos + 1) lines
+    else labelScan false r (pos + Link.clen c) lines
 
 /-- `while let Some(' ' | '\t' | '\n') = chars.next() { if ch == '\n' { lines += 1 } pos += 1 }` -/
 def wsScan : List Char → Nat → Nat → Nat × Nat
@@ -464,7 +463,7 @@ def refParse (cfg : Cfg) (str : List Char) :
     Except Panic (Option (List Nat × List Nat × Option (List Nat) × Nat)) :=
   let len := Link.byteLen str
   -- `chars.next(); // skip '['`
-  match labelScan str.tail (match str with | [] => 0 | c :: _ => Link.clen c) 0 with
+  match labelScan false str.tail (match str with | [] => 0 | c :: _ => Link.clen c) 0 with
   | none => pure none
   | some (labelEnd, lines, rest) =>
     match rest with
